@@ -717,6 +717,11 @@ class TaskScenario(ScenarioData):
                     # No start date - use current slot (set by dependency calculation)
                     slot_idx = self.currentSlotIdx if self.currentSlotIdx is not None else 0
                     date = self.project.idxToDate(slot_idx)
+                    if date is not None and self.slotStartOffset > 0:
+                        # The dependency bound lies inside the slot
+                        from datetime import timedelta
+
+                        date = date + timedelta(seconds=self.slotStartOffset)
                     self.property[("start", self.scenarioIdx)] = date
                     self.property[("end", self.scenarioIdx)] = date
             else:
